@@ -220,6 +220,9 @@ fn run_impl(kind: &str, input: &str, op: &Op, ans: &[u8], notes: &mut Vec<String
 
 fn run_case(w: &mut impl std::io::Write, kind: &str, input: &str, op: &Op, ans: &[u8]) {
     let mut notes = vec![];
+    // announce the case before it runs (flushed): a process that dies inside the crate is attributed to it
+    writeln!(w, "SB {kind} {};in={};arg={};ans={}", op.words(), list(input.as_bytes()), list(op.str_arg().as_bytes()), String::from_utf8_lossy(ans)).unwrap();
+    w.flush().unwrap();
     let o = run_impl(kind, input, op, ans, &mut notes);
     let offs = match &o.off { Some(b) => list(b), None => "-".into() };
     writeln!(w, "S {kind} {};in={};arg={};ans={};out={};ch={};off={};pn={};calls={}",
